@@ -74,6 +74,44 @@ def apply_reaction_cases(rep, rng, n):
                            "model": m.strengths_dict()})
 
 
+def own_flags_checks(rep):
+    """'the flag consulted is that of that very species in that very cell' - of that very system: a map handed to two systems as one
+    array, or taken from one system and given to another, is each system's own afterwards. Flagging an entry in one system leaves
+    the other's entry free: its rate of change stays the one the law gives, and the array the caller handed over is not consulted
+    once the system is built."""
+    util.ensure_repo_importable()
+    from strengths import RDGridSpace, RDNetwork, RDSystem, Reaction, Species, kinetics
+    net = lambda: RDNetwork(species=[Species(label="A", density=20), Species(label="B", density=5)],
+                            reactions=[Reaction("A -> B", kf=2.0)])
+    mk = lambda **kw: RDSystem(network=net(), space=RDGridSpace(w=2), **kw)
+    free = [float(v) for v in kinetics.compute_dstatedt(mk()).value]
+    routes = {
+        "one-array-for-two-systems": lambda m: (mk(chemostats=m), mk(chemostats=m)),
+        "map-of-one-system-assigned-to-another": lambda m: (lambda a: (a, _assign(mk(), a.chemostats)))(mk(chemostats=m)),
+    }
+    for name, build in routes.items():
+        for dtype in (int, np.int64, np.int32, bool, float):
+            rep.case(["own-flags", name, str(dtype)])
+            m = np.zeros(4, dtype=dtype)
+            a, b = build(m)
+            a.set_chemostat("B", 1, 1)
+            got = [float(v) for v in kinetics.compute_dstatedt(b).value]
+            if [int(v) for v in b.chemostats] != [0, 0, 0, 0] or got != free:
+                rep.violation("own-flags", "chem:flag-of-another-system-consulted:" + name,
+                              {"dtype": str(dtype), "flags_of_the_untouched_system": [int(v) for v in b.chemostats], "rate": got, "law": free})
+                continue
+            m[:] = 1                      # the caller re-uses its array afterwards
+            got = [float(v) for v in kinetics.compute_dstatedt(b).value]
+            if got != free:
+                rep.violation("own-flags", "chem:callers-array-consulted-after-construction:" + name,
+                              {"dtype": str(dtype), "rate": got, "law": free})
+
+
+def _assign(system, flags):
+    system.chemostats = flags
+    return system
+
+
 def run(tier, selftest=False, only=None):
     rep = Report(PROP, tier)
     rep.rule = ("model: ChemostatsHeld on every Gillespie / tau-leap step (MC_RDStep) and on the exact Euler step, and the "
@@ -142,6 +180,8 @@ def run(tier, selftest=False, only=None):
             from ..vlib.report import MachineryError
             raise MachineryError("no unstable-step Euler run blew up: the regime was not exercised")
         rep.traces += 2 * len(ms)
+    with rep.guard("own-flags", None):
+        own_flags_checks(rep)
     if selftest:
         c07.self_test(rep)
     return rep.finish()
